@@ -63,7 +63,10 @@ RawFamily == {P1, P2, P3}
 
 (* ================================ c04 ================================== *)
 C04Caps == {64}
-C04Progs == RawFamily \cup { Cat("range", 16, "firstlast"), Cat("rawlogic", 10, "adjlast") }
+\* ... and one circuit without any public-input row (its only vector is the empty one;
+\* every extension of it must be refused)
+C04Progs == RawFamily \cup { Cat("range", 16, "firstlast"), Cat("rawlogic", 10, "adjlast"),
+                             Cat("arith", 12, "none") }
 C04ProgsFor(d) == C04Progs
 C04Routes(d, p) == {"direct"}
 C04Labels(d, p) == { BaseLabels[i] : i \in 1..NLabels }
